@@ -409,10 +409,14 @@ func strictImprovementOnly(c *Ctx, r *Report, rule string) {
 	for _, f := range prodFuncs(c, "index") {
 		k := 0
 		for _, ifi := range allIfs(f) {
-			b, ok := ifi.Cond.(*ssa.BinOp)
-			if !ok {
+			cm, ok := resolveCmp(ifi.Cond, 0)
+			if !ok || cm.x.isLen || cm.y.isLen {
 				continue
 			}
+			b := struct {
+				Op   token.Token
+				X, Y ssa.Value
+			}{cm.op, cm.x.v, cm.y.v}
 			bx, okx := b.X.Type().Underlying().(*types.Basic)
 			if !okx || bx.Info()&types.IsFloat == 0 {
 				continue
@@ -993,7 +997,17 @@ func backingArrayOnlyThroughHeap(c *Ctx, r *Report, rule string) {
 		nF++
 		// values that are (views of) a queue's backing array: conversions / loads of queue-typed values
 		view := func(v ssa.Value) bool {
-			for _, o := range origins(v, originOpt{}) {
+			os := origins(v, originOpt{})
+			allFresh := len(os) > 0
+			for _, o := range os {
+				if _, isMk := o.(*ssa.MakeSlice); !isMk {
+					allFresh = false
+				}
+			}
+			if allFresh {
+				return false // a slice this function has just made: filling it element by element is a copy
+			}
+			for _, o := range os {
 				if isQueueSlice(o.Type()) {
 					if _, isMk := o.(*ssa.MakeSlice); isMk {
 						continue
@@ -1106,6 +1120,11 @@ func contextsAreForwarded(c *Ctx, r *Report, rule string, pkgs ...string) {
 				return
 			}
 			if id := callID(cc); id.Pkg == "context" {
+				return
+			}
+			if id := callID(cc); id.Name == "Step" && strings.HasSuffix(id.Pkg, "etcd/raft") {
+				// a received raft message is stepped under the group's own context by design (the sender's RPC deadline must
+				// not cancel the local state machine's step); written inside the group's receive method or inline, it is the same call
 				return
 			}
 			for _, a := range cc.Args {
